@@ -85,6 +85,11 @@ CHECKS = {
    "Bases: 10 channel states reached through validate/revoke/sign/revocation requests (both sides at commitment 0; at 1 with equal views; the two views differing by eps-1, eps, eps+1, -(eps+1), 2eps+1; an HTLC pending in the holder's, the counterparty's or both current commitments) x funder / fundee x commitment type x upfront shutdown script (none, wallet, allowlisted foreign) x entry point (semantic, raw transaction). Deviations: non-fee-payer's value at +-1, +-eps, +-(eps+1) and 0; fee at min-2, min, max, max+2, 0 and 900000 sat; holder script kind (wallet at the right / wrong / no path, allowlisted, foreign, upfront, absent); counterparty script absent; allowlist cleared between setup and signing; for the raw entry point output order, paths attached to the other output, version, locktime, sequence, prevout, extra output. Accepted => the reference holds (for the raw entry point: for some assignment of outputs to parties), the signature verifies against the independently built closing transaction spending the funding outpoint under the funding key, and channel_closed is set live and in a signer restored from a copy of the store.",
    "epsilon 1000 sat, fee range 500..20000 sat/kw in the policy used; fee-rate rounding in the accepting direction.",
    "4.3"),
+ "C08": (True, "c08", "model_checking",
+   "deviation-bounded exhaustive enumeration (d=1 quick, d=2 thorough) of on-chain transactions on fresh real nodes through Node::check_onchain_tx and Approve::handle_proposed_onchain (recording approver), under checked and wrapping arithmetic, against an independent output classifier and a u128 fee bound",
+   "Bases: a wallet spend (change + allowlisted destination), a single-channel funding with change, a two-channel funding from two inputs x 2 policies (max fee rate 333333 / 5000 sat per kw, daily / hourly 3000 sat fee velocity) x 3 allowlists (foreign address; + the wallet's own change address; + a foreign xpub and the node's own xpub) x 2 entry points. Deviations: each output replaced by every other class (wallet native / wrapped / taproot at the right, wrong or no path; allowlisted script with and without path; xpub-derived at the right, wrong or no path; foreign with and without path; funding output breaking one rule: value +-1 / +100000, script of other keys, inbound, push, initial commitment not counter-signed, channel already advanced), outputs added / dropped / zero / 2^63 / 2^64-1, a third channel funded, segwit and non-segwit inputs added, segwit flags cleared, input values 0 / 2^64-1, version 1 / 3, the non-beneficial value set to 0, around max_rate x weight / 1000 for the unsigned, the signer's and the reference's weight, to every output value (+fee, x2), to 2^32 and 2^64 wrap candidates, the request repeated at once and after an hour. Channels are really created, set up on the transaction's outpoint and (unless the deviation says otherwise) their initial holder commitment validated with harness signatures.",
+   "A pass requires the reference to hold; a report of unknown destinations must list exactly the reference-unknown outputs, and the approver must be consulted exactly then. What an operator then approves is outside the property.",
+   "4.4"),
  "C20": (True, "concur", "model_checking",
    "stateless model checking of the real Node under shuttle's runtime with an own preemption-bounded depth-first scheduler (iterative context bounding); linearizability by brute force against all sequential orders",
    "vls-core is built with --cfg vls_verif so that every Mutex of its prelude (node state, channel map, channel slots, tracker, monitor state, stores) is shuttle's. For each of ~110 scenarios (every unordered pair of 14 request kinds - commitment updates, forget/new/setup channel, balance, heartbeat, keysend, on-chain check and signature, block with the channel's close (compact and streamed), empty block, allowlist - plus the single-channel races validate||revoke, sign-holder||revoke, sign-counterparty||counterparty-revocation; thorough adds triples) every schedule of the request threads with <= 1 (2) preemptions is executed to completion on a freshly built node, and <= 2 (3) preemptions as far as the budget goes; a schedule that cannot complete is a deadlock, and the tuple (replies, fingerprint of live state and store) must equal that of some sequential order of the same requests.",
